@@ -21,13 +21,15 @@ NCPU = int(os.environ.get('VERIF_JOBS', '16'))
 # DESIGN.md names in the trusted base.  A property theorem depending on anything else is not
 # accepted as discharged.
 ALLOWED_AXIOM_PREFIXES = (
+    # Reals
     'ClassicalDedekindReals.sig_forall_dec', 'ClassicalDedekindReals.sig_not_dec',
-    'FunctionalExtensionality.functional_extensionality_dep',
+    'FunctionalExtensionality.functional_extensionality_dep', 'functional_extensionality_dep',
+    # classical logic / equality axioms of the standard library (reached through Coquelicot, Interval, Flocq, Program)
     'Classical_Prop.classic', 'Eqdep.Eq_rect_eq.eq_rect_eq', 'JMeq.JMeq_eq',
     'ProofIrrelevance.proof_irrelevance', 'ClassicalEpsilon.constructive_indefinite_description',
-    'PropExtensionality.propositional_extensionality', 'Uint63.', 'PrimInt63.', 'PrimFloat.',
-    'FloatAxioms.', 'FloatOps.', 'Sint63.', 'Reals.', 'Rdefinitions.', 'Raxioms.', 'PArray.',
-    'Coq.', 'Stdlib.',
+    'PropExtensionality.propositional_extensionality',
+    # primitive integers / floats and their specification axioms (stdlib; used by Interval and the float models)
+    'Uint63.', 'PrimInt63.', 'PrimFloat.', 'FloatAxioms.', 'FloatOps.', 'Sint63.', 'PArray.', 'Uint63Axioms.', 'CarryType.',
 )
 GATE_RE = re.compile(r'\b(Admitted|admit|Axiom|Axioms|Parameter|Parameters|Conjecture|Conjectures|'
                      r'Unset\s+Guard|bypass_check|type-in-type|impredicative-set|Admit\s+Obligations)\b|'
@@ -382,7 +384,7 @@ class Ctx:
             cov['exhaustive'] = bool(self.exhaustive)
         cov.update(self.extra)
         ev = {'property_id': self.prop, 'tier': self.tier, 'seed': self.seed, 'level': self.level,
-              'coverage': cov, 'assumptions': self.assumptions, 'wall_s': round(time.time() - self.t0, 2),
+              'coverage': cov, 'assumptions': list(self.assumptions) if self.assumptions else sorted(set(self.trusted)), 'wall_s': round(time.time() - self.t0, 2),
               'violations': nviol}
         # evidence/<id>.json is only ever written by runs against /repo itself; runs against another tree
         # (ODAK_REPO=..., used for seeded-change drills) leave their record in the build directory
